@@ -16,8 +16,8 @@ def kindsInOrder : List Kind :=
 enumeration order; the enumeration constants have these numbers -/
 theorem entry_kinds_tied :
     «yang.EntryKindToName.map» = (List.range kindsInOrder.length).zipWith (fun (i : Nat) k => (Val.int i, Val.str k.name)) kindsInOrder ∧
-    [«yang.LeafEntry», «yang.DirectoryEntry», «yang.AnyDataEntry», «yang.AnyXMLEntry», «yang.CaseEntry», «yang.ChoiceEntry»,
-     «yang.InputEntry», «yang.NotificationEntry», «yang.OutputEntry», «yang.DeviateEntry»] = [0, 1, 2, 3, 4, 5, 6, 7, 8, 9] := by
+    [«yang:LeafEntry», «yang:DirectoryEntry», «yang:AnyDataEntry», «yang:AnyXMLEntry», «yang:CaseEntry», «yang:ChoiceEntry»,
+     «yang:InputEntry», «yang:NotificationEntry», «yang:OutputEntry», «yang:DeviateEntry»] = [0, 1, 2, 3, 4, 5, 6, 7, 8, 9] := by
   constructor <;> rfl
 
 /-- every constructor of `Kind` is listed once -/
@@ -25,6 +25,6 @@ theorem kindsInOrder_complete (k : Kind) : k ∈ kindsInOrder := by
   cases k <;> simp [kindsInOrder]
 
 /-- the tri-state constants (`config`, `mandatory`) -/
-theorem tristate_tied : [«yang.TSUnset», «yang.TSTrue», «yang.TSFalse»] = [0, 1, 2] := by rfl
+theorem tristate_tied : [«yang:TSUnset», «yang:TSTrue», «yang:TSFalse»] = [0, 1, 2] := by rfl
 
 end Goyang.Props.ConstsC04
